@@ -394,6 +394,29 @@ theorem reachable_tree_ok (cfg : Cfg) (auto : Bool) (width : Nat) (ls : List Str
 theorem auto_commit_keeps_texts (s : S) (h : s.cfg.ignoreBlank = false) :
     (commit s).texts = s.texts ∧ NoFilter s := ⟨commit_texts_noignore s h, .inr h⟩
 
+/-- **The remaining case: auto-commit on, any `ignore_blank_lines`.**  From a committed
+state satisfying C07's invariant (every state reached with auto-commit on), an operation
+answers as it does with auto-commit off, and leaves the texts that one bootstrap makes of
+the texts the same operation leaves with auto-commit off (to which the theorems above
+apply with `NoFilter` by its first case): a sublist of them in which every non-blank line
+survives — only blank lines can disappear, and none does without `ignore_blank_lines`. -/
+theorem auto_commit_step_texts (s : S) (op : Op) (ha : s.auto = true) (hd : s.dirty = false)
+    (hinv : FreshInv s) :
+    let manual := (step { s with auto := false } op).1.texts
+    NoFilter { s with auto := false } ∧
+    (step s op).2 = (step { s with auto := false } op).2 ∧
+    (step s op).1.texts = (bootstrap s.cfg manual).texts ∧
+    (step s op).1.texts.Sublist manual ∧
+    (step s op).1.texts.filter (fun x => !isBlank x) = manual.filter (fun x => !isBlank x) ∧
+    (s.cfg.ignoreBlank = false → (step s op).1.texts = manual) := by
+  intro manual
+  have h := auto_step_texts s op ha hd hinv
+  have hb := bootstrap_texts s.cfg manual
+  refine ⟨.inl rfl, h.2, h.1, ?_, ?_, ?_⟩
+  · rw [h.1]; exact hb.1
+  · rw [h.1]; exact hb.2
+  · intro hi; rw [h.1]; exact bootstrap_texts_noignore s.cfg manual hi
+
 /-! ## non-vacuity: a concrete 5-line config with a grandchild and a prefix pair -/
 
 def exCfg : Cfg := { ios := true, delims := ['!'], ignoreBlank := false }
@@ -462,6 +485,13 @@ example : cfi 1 (indentOf exOn.tree 0) (familyText (indentOf exOn.tree 0) 1 "int
 example : children exOn.tree 3 = [] ∧ siblings exOn.tree 3 = [1, 3] ∧
     (step exOn (.appendToFamily 3 " x".toList (-1) false)).1.texts[4]? = some " x".toList ∧
     (step exOn (.appendToFamily 3 "x".toList (-1) true)).1.texts[4]? = some "  x".toList := by decide
+/-- `auto_commit_step_texts` with `ignore_blank_lines`: appending a blank line is filtered
+away by the commit, a non-blank one survives -/
+example : let s := init { exCfg with ignoreBlank := true } true 1 exLines
+    s.auto = true ∧ s.dirty = false ∧
+    (step { s with auto := false } (.append "  ".toList)).1.texts.length = 6 ∧
+    (step s (.append "  ".toList)).1.texts = exLines ∧
+    (step s (.append "end".toList)).1.texts = exLines ++ ["end".toList] := by decide
 /-- refused: two levels deeper; a handle on a dirty state -/
 example : (step exOn (.appendToFamily 0 "   x".toList (-1) false)).2 = .error .notImplemented ∧
     (step (step exOff (.append "x".toList)).1 (.delete 0)).2 = .error .dirtyHandle := by decide
